@@ -7,10 +7,15 @@
 //	    does, acquire one ammo for each, walk everything reachable from (gun1, ammo1) and from (gun2, ammo2) and print
 //	    the labels of the allocation units reachable from BOTH; snapshot those units, fire ONE real Shoot per gun at an
 //	    in-process target and print the labels of the shared units whose content changed.
+//	mode=handover kind=<pool kind> shots=<K> [steps=<N> failat=<K> fail=<fault>]
+//	    one goroutine: a real gun bound to a recording aggregator fires K real shots; per sample object the word of what
+//	    the gun did with it (T take from the pool, W write, G give to the aggregator). Scenario kinds take a scenario of
+//	    N steps whose step `failat` carries the fault (pools.go: none status conn post postbody postjson tmpl pre call
+//	    payload).
 //	mode=guns kind=<pool kind> n=<instances>
 //	    the real engine with a probing gun factory (child process): guns created, distinct gun objects, maximal number
 //	    of overlapping Shoot calls on one gun object, maximal number of goroutines calling one gun.
-//	mode=race kind=<pool kind> n=<instances> shots=<K> [pre=1] [sc=<clients>] [agg=phout]
+//	mode=race kind=<pool kind> n=<instances> shots=<K> [pre=1] [sc=<clients>] [agg=phout] [steps= failat= fail=]
 //	    the real engine in a child process (GORACE log to a file, never halting); observation = race report sites
 //	    (only a -race build can see any) and fatal runtime errors / panics.
 //	mode=hammer obj=<shared object> n=<goroutines> calls=<K>
@@ -23,13 +28,25 @@
 package main
 
 import (
+	"os"
 	"time"
 
 	"verifharness/drv"
 )
 
 // the -race build keeps this (parent) process free of pandora code: every case runs in a child
-func workers() int { return 4 }
+// (6 children at a time in the quick tier, 12 in the thorough one: a child runs up to 24 instance goroutines)
+func workers() int {
+	for i, a := range os.Args {
+		if (a == "-tier" || a == "--tier") && i+1 < len(os.Args) && os.Args[i+1] == "thorough" {
+			return 12
+		}
+		if a == "-tier=thorough" || a == "--tier=thorough" {
+			return 12
+		}
+	}
+	return 6
+}
 
 func main() {
 	if childMain() {
@@ -44,8 +61,11 @@ func main() {
 		Timeout: 150 * time.Second,
 		Rule: "the regenerated lock-facts table; every built-in pool kind (http uri/uripost/raw/json with and without preload and " +
 			"shared client, http/scenario, grpc/scenario, grpc/json with and without shared client): aliasing graph of two " +
-			"instances + write set of one real Shoot each; gun identity/overlap probe through the real engine with 1..12 " +
-			"instances; race-detector sweep of whole pools with 2..16 instances (discard and phout aggregators) and of each " +
-			"shared object hammered by 2..16 goroutines; non-trivial = shots reached the in-process target / all calls done",
+			"instances + write set of one real Shoot each; per-sample hand-over word (take/write/give) of real shots of every gun " +
+			"kind on every failure path of a scenario step (random scenario length and failing step); gun identity/overlap probe " +
+			"through the real engine with 1..16 instances; race-detector sweep of whole pools with 2..24 instances (discard and " +
+			"phout aggregators, scenarios with a failing step) and of each shared object (iterator, random sources, template " +
+			"caches, client pool, sample pool, DNS cache, shared schedules) hammered by 2..32 goroutines; the -race build draws " +
+			"other cases than the plain build; non-trivial = shots reached the in-process target / samples reported / all calls done",
 	})
 }
